@@ -9,7 +9,7 @@ from checks import krill_common as kc
 
 PID = "C19"
 LEVEL = "model_checking"
-THEMES = ["status", "chain", "multi"]
+THEMES = ["status", "chain", "multi", "foreign"]
 NEEDED = ["PubRemove", "PubAdd", "RepoSyncAll", "Restart", "ChildRemove",
           "DeleteCa", "Settled"]
 
@@ -80,8 +80,9 @@ def run(tier, seed):
         mc_cfgs=(["MC_Krill_q_status.cfg"] if tier == "quick"
                  else ["MC_Krill_q_status.cfg", "MC_Krill_status.cfg"]),
         needed_events=NEEDED + ["RemoveParent", "AddParent"],
-        directed=DIRECTED + kc.MULTI_DIRECTED[:1],
-        theme_nums={"multi": (4, 40)})
+        directed=(DIRECTED + kc.MULTI_DIRECTED[:1]
+                  + kc.clause("foreign-limit-refused")),
+        theme_nums={"multi": (4, 40), "foreign": (4, 40)})
 
 
 def replay(path, seed):
